@@ -104,9 +104,9 @@ def r_C17eval(root):
         k, _ = call(repo, "remove_model", parked)
         allm = table(repo.get(".all_models"))
         rep("C18.j", "a model whose _tx_filename does not name its entry is removed too", k == "ret" and not any(m_ is parked for m_ in (allm or {"x": parked}).values()), "after remove_model(<model stored as /m/parked.mdl whose _tx_filename reads /g/grammar.tx>) the model is %s in all_models (documented: entries are found by the stored model object; a root object of a user class whose attributes are still parked reads the class-level _tx_filename)" % ("still" if k != "ret" or any(m_ is parked for m_ in (allm or {}).values()) else "no longer"), witness="grammar from a file, user class for the root rule, global_repository=True, a contained user class whose __init__ raises; then the same file again")
-    k, _ = call(repo, "remove_models", [b1, cached])
+    k, _ = call(repo, "remove_models", [b1, cached, anon2])
     allm = table(repo.get(".all_models"))
-    rep("C18.j", "remove_models removes every listed model", k == "ret" and not any(m_ is b1 or m_ is cached for m_ in (allm or {"x": b1}).values()), "after remove_models([b, c]) all_models still holds %s" % sorted(k_ for k_, m_ in (allm or {}).items() if m_ is b1 or m_ is cached))
+    rep("C18.j", "remove_models removes every listed model", k == "ret" and not any(m_ is b1 or m_ is cached or m_ is anon2 for m_ in (allm or {"x": b1}).values()), "after remove_models([b, c, <string-loaded model>]) all_models still holds %s" % sorted(k_ for k_, m_ in (allm or {}).items() if m_ is b1 or m_ is cached or m_ is anon2))
     return inst, out
 
 def r_C15eval(root):
